@@ -42,6 +42,9 @@ REVIEWED: dict[tuple[str, str], str] = {
     ("sqlglot.parsers.redshift:RedshiftParser._parse_projections", "projections[-1]"):
         "guarded by `exclude`, which needs the token EXCLUDE right after the projection list; had the list been empty, EXCLUDE itself "
         "(a valid identifier) would have been parsed as the first projection, so the list is non-empty whenever exclude is",
+    ("sqlglot.tokenizer_core:TokenizerCore._add", "self.tokens[-1]"):
+        "the statement before it is the recursive self._add(TokenType.STRING, text), which appends a token unconditionally; its only shrinking branch "
+        "(self.tokens = self.tokens[:tokens]) is guarded by `token_type in self.commands`, and STRING is not a command token",
     ("sqlglot.tokenizer_core:TokenizerCore._scan_comment", "self.tokens[-1]"):
         "guarded by comment_start_line == self._prev_token_line; _prev_token_line is -1 after reset and only _add (which appends a token) "
         "and this very branch assign it a real line number, so equality implies at least one token",
